@@ -20,8 +20,8 @@ PLANS = {
                       embs=api.EMBEDDINGS_ALL, forced=[("scatter", "mixed", 60), ("scatter", "mixed2", 200)])),
     "C02": dict(
         quick=dict(mc=["core2"], gens=[dict(maxlog=2, num=60, depth=24, lean=True, focus="commit"),
-                                       dict(maxlog=2, num=500, depth=28, lean=True, focus="overlay", top=40)],
-                   per_beh=2, fs=[1, 19, 21, 25], vts=["tiny", "edge", "ovf"], embs=api.EMBEDDINGS_QUICK),
+                                       dict(maxlog=2, num=500, depth=28, lean=True, focus="overlay", top=40, templates=True)],
+                   per_beh=2, fs=[1, 1, 19, 21, 25], vts=["tiny", "edge", "ovf"], embs=api.EMBEDDINGS_QUICK),
         thorough=dict(mc=["core", "core2"], gens=[dict(maxlog=2, num=600, depth=30, lean=True, focus="commit")],
                       per_beh=5, fs=[1, 3, 19, 20, 21, 25, 400], vts=["tiny", "edge"], embs=api.EMBEDDINGS_ALL)),
     "C05": dict(
@@ -54,36 +54,38 @@ PLANS = {
     "C19": dict(
         quick=dict(mc=["core2"], gens=[dict(maxlog=2, num=60, depth=24, lean=True, focus="commit")],
                    per_beh=2, fs=[1, 3, 25, 60], vts=["ovf", "mixed", "mixed2", "big", "edge"], embs=api.EMBEDDINGS_QUICK,
-                   decode=True, tiny_ht=True, alloc=True),
+                   decode=True, tiny_ht=True, alloc=True, cycles=dict(runs=6, n=5, fs=[25, 60, 200], vts=["ovf", "mixed", "big", "edge"])),
         thorough=dict(mc=["core", "core2"], gens=[dict(maxlog=2, num=500, depth=32, lean=True, focus="commit")],
                       per_beh=4, fs=[1, 3, 25, 60, 400], vts=["ovf", "mixed", "mixed2", "big", "edge", "huge"],
-                      embs=api.EMBEDDINGS_ALL, decode=True, tiny_ht=True, alloc=True)),
+                      embs=api.EMBEDDINGS_ALL, decode=True, tiny_ht=True, alloc=True,
+                      cycles=dict(runs=60, n=12, fs=[25, 60, 200, 400, 1200], vts=["ovf", "mixed", "mixed2", "big", "edge", "huge"]))),
     "C09": dict(
         quick=dict(mc=["core2"], gens=[dict(maxlog=1, num=40, depth=24, lean=True, focus="rollback"),
                                        dict(maxlog=2, num=40, depth=24, lean=True, focus="rollback"),
                                        dict(maxlog=3, num=40, depth=24, lean=True, focus="rollback")],
-                   per_beh=2, fs=[1, 3], vts=["tiny", "edge", "ovf", "big"], embs=api.EMBEDDINGS_QUICK,
+                   per_beh=2, fs=[1, 3], vts=["tiny", "edge", "ovf", "big", "empty"], embs=api.EMBEDDINGS_QUICK,
                    segs=[4096, 8192, 65536, 0]),
         thorough=dict(mc=["core", "core2"], gens=[dict(maxlog=m, num=300, depth=32, lean=True, focus="rollback")
                                                   for m in (1, 2, 3)],
-                      per_beh=4, fs=[1, 3, 25], vts=["tiny", "edge", "ovf", "big", "huge"], embs=api.EMBEDDINGS_ALL,
+                      per_beh=4, fs=[1, 3, 25], vts=["tiny", "edge", "ovf", "big", "huge", "empty"], embs=api.EMBEDDINGS_ALL,
                       segs=[4096, 8192, 65536, 0])),
     "C10": dict(
-        quick=dict(mc=["core2"], gens=[dict(maxlog=2, num=60, depth=24, lean=True, focus="reopen")],
-                   per_beh=2, fs=[1, 3, 25], vts=["tiny", "edge", "ovf"], embs=api.EMBEDDINGS_QUICK, reopen_cfgs=True,
+        quick=dict(mc=["core2"], gens=[dict(maxlog=2, num=600, depth=24, lean=True, focus="reopen", top=60)],
+                   per_beh=2, fs=[1, 3, 25], vts=["tiny", "edge", "ovf", "empty", "empty2"], embs=api.EMBEDDINGS_QUICK, reopen_cfgs=True,
                    twins="reopen"),
-        thorough=dict(mc=["core", "core2"], gens=[dict(maxlog=2, num=500, depth=30, lean=True, focus="reopen"),
+        thorough=dict(mc=["core", "core2"], gens=[dict(maxlog=2, num=5000, depth=30, lean=True, focus="reopen", top=500),
                                                   dict(maxlog=1, num=200, depth=30, lean=True, focus="reopen")],
-                      per_beh=4, fs=[1, 3, 25, 400], vts=["tiny", "edge", "ovf", "big"], embs=api.EMBEDDINGS_ALL,
+                      per_beh=4, fs=[1, 3, 25, 400], vts=["tiny", "edge", "ovf", "big", "empty"], embs=api.EMBEDDINGS_ALL,
                       reopen_cfgs=True, twins="reopen")),
     "C11": dict(
-        quick=dict(mc=["ovl"], gens=[dict(maxlog=2, num=600, depth=28, lean=True, focus="overlay", top=70)],
-                   per_beh=2, fs=[1, 3, 25], vts=["tiny", "edge", "ovf", "mixed"], embs=api.EMBEDDINGS_QUICK),
+        quick=dict(mc=["ovl"], gens=[dict(maxlog=2, num=2500, depth=28, lean=True, focus="overlay", top=120, templates=True)],
+                   per_beh=2, fs=[1, 1, 3, 25], vts=["tiny", "edge", "ovf", "ovf", "mixed"], embs=api.EMBEDDINGS_QUICK),
         thorough=dict(mc=["ovl", "ovl3"], gens=[dict(maxlog=2, num=6000, depth=32, lean=True, focus="overlay", top=600),
                                                 dict(maxlog=2, num=300, depth=32, lean=False, focus="overlay")],
                       per_beh=4, fs=[1, 3, 25], vts=["tiny", "edge", "ovf", "mixed"], embs=api.EMBEDDINGS_ALL)),
     "C12": dict(
-        quick=dict(mc=["core2"], gens=[dict(maxlog=2, num=80, depth=26, lean=True, focus="rejected")],
+        quick=dict(mc=["core2"], gens=[dict(maxlog=2, num=80, depth=26, lean=True, focus="rejected"),
+                                       dict(maxlog=2, num=1500, depth=30, lean=True, focus="overlay", top=30)],
                    per_beh=1, fs=[1, 3], vts=["tiny", "edge"], embs=api.EMBEDDINGS_QUICK, twins="rejected"),
         thorough=dict(mc=["core", "core2", "ovl"], gens=[dict(maxlog=2, num=600, depth=32, lean=True, focus="rejected"),
                                                          dict(maxlog=1, num=300, depth=32, lean=False, focus="rejected")],
@@ -131,6 +133,8 @@ def run_plan(pid, tier, seed, extra_cov=None, t0=None):
         if g.get("top"):
             # generate many, keep the behaviours richest in the features of the focus
             kept = sorted(kept, key=lambda b: -api.score(b, g["focus"]))[: g["top"]]
+        if g.get("templates"):
+            kept = kept + api.overlay_templates(sorted(consts["Keys"]))
         C.log("[%s] generated %d behaviours (maxlog=%d), %d match focus '%s'" %
               (pid, len(behs), g["maxlog"], len(kept), g["focus"]))
         for b in kept:
@@ -188,6 +192,31 @@ def run_plan(pid, tier, seed, extra_cov=None, t0=None):
                     classes[run] = ckey
                     script_by_run[run] = tsc
                     twin_of[run - 1] = run
+    cycle_runs = []
+    if plan.get("cycles"):
+        # fill / overwrite-with-another-size-class / empty cycles (legal NomtApi behaviours; ApiTrace validates them too)
+        consts = consts_by_class.get("ml2_rb1") or api.gen_constants(maxlog=2)
+        consts_by_class.setdefault("ml2_rb1", consts)
+        keys = sorted(consts["Keys"])
+        for ci in range(plan["cycles"]["runs"]):
+            beh = []
+            def commit(w):
+                beh.extend([dict(a="Begin", s=1, chain=[], res="Ok"), dict(a="Finish", s=1, f=1, w=w), dict(a="Commit", f=1, res="Ok")])
+            for c in range(plan["cycles"]["n"]):
+                commit({k: "v1" for k in keys})
+                commit({k: "v2" for k in keys})
+                commit({k: "Nil" for k in keys})
+            store, conc = api.concretise(beh, consts, rng, f=rng.choice(plan["cycles"]["fs"]), emb=rng.choice(plan["embs"]),
+                                         vt=rng.choice(plan["cycles"]["vts"]))
+            store["hashtable_buckets"] = 64000
+            run += 1
+            sc = api.make_script(run, beh, store, conc)
+            sc["decode"] = True
+            scripts[run] = sc
+            classes[run] = "ml2_rb1"
+            script_by_run[run] = sc
+            cycle_runs.append(run)
+            distinct.add(C.sha([beh, store, conc]))
     C.log("[%s] replaying %d scripts (%d behaviours) against the real store" % (pid, len(scripts), nbeh))
     # 4. replay
     runs, hangs = api.replay(list(scripts.values()), pid)
@@ -203,6 +232,8 @@ def run_plan(pid, tier, seed, extra_cov=None, t0=None):
     rejections = []
     for ckey, consts in consts_by_class.items():
         ids = sorted(r for r in runs if classes.get(r) == ckey)
+        if plan.get("twins") == "reopen":
+            consts = dict(consts, MaxOvl=16)      # twins without Close never recycle overlay identifiers
         acc, rej = api.validate_runs(ids, runs, consts, "%s_%s" % (pid, ckey))
         accepted_total += len(acc)
         rejections.extend(rej)
@@ -211,6 +242,7 @@ def run_plan(pid, tier, seed, extra_cov=None, t0=None):
     for rej in rejections:
         sc = script_by_run[rej["run"]]
         prop = api.attribute(rej, sc["steps"])
+        props = api.attribute_all(rej, sc["steps"])
         # differential attribution through twins
         is_twin = rej["run"] in twin_of.values()
         if not is_twin and rej["run"] in twin_of and twin_of[rej["run"]] not in accepted_set_rejected_runs \
@@ -222,10 +254,12 @@ def run_plan(pid, tier, seed, extra_cov=None, t0=None):
         if fid:
             known.append(fid)
             continue
-        if prop != pid:
-            notes.append("trace of run %d rejected at step %d (%s, class %s): attributed to %s, reported by its own check"
-                         % (rej["run"], rej["pos"], rej["record"].get("ev"), rej["cls"], prop))
+        props.add(prop)
+        if pid not in props:
+            notes.append("trace of run %d rejected at step %d (%s, classes %s): attributed to %s, reported by its own check"
+                         % (rej["run"], rej["pos"], rej["record"].get("ev"), rej.get("classes", [rej["cls"]]), sorted(props)))
             continue
+        prop = pid
         p = C.write_replay(pid, "run%d" % rej["run"], payload)
         violations.append(dict(prop=prop, replay=p,
                                what="store behaviour is not a behaviour of NomtApi: %s res=%s class=%s" %
@@ -250,14 +284,31 @@ def run_plan(pid, tier, seed, extra_cov=None, t0=None):
                         prev[fname] = cur
                     else:
                         prev.pop(fname, None)
+        # frontier records of the fill/empty cycles: bump pointers observed after every emptying commit
+        for r in cycle_runs:
+            for fname in ("ln", "bbn"):
+                bumps = []
+                for rec in runs.get(r, []):
+                    st = rec.get("st") if isinstance(rec.get("st"), dict) else None
+                    if rec.get("ev") == "Commit" and st and st.get("dec") and all(v == "Nil" for v in st["kv"].values()):
+                        b = st["dec"].get(fname, {}).get("bump")
+                        if b is not None:
+                            bumps.append(b)
+                if len(bumps) >= 2:
+                    # slack: the free list needs ceil(free/1022)+1 pages of its own, and the rollback sync keeps one generation
+                    pairs.append(dict(run=r, file=fname, bumps=bumps, slack=max(4, bumps[0] // 500 + 4)))
         alloc_pairs = len(pairs)
         bad_pairs = validate_alloc(pairs, pid) if pairs else []
         for i in bad_pairs[:5]:
             pr = pairs[i]
             p = C.write_replay(pid, "alloc-run%d-%s" % (pr["run"], pr["file"]), dict(kind="alloc-pair", property=pid, pair=pr,
                                                                                      script=script_by_run[pr["run"]]))
-            violations.append(dict(prop=pid, replay=p, what="page accounting of %s between two commits is not an Alloc!Step "
-                                                            "(leak, reuse of a live page, or incomplete partition)" % pr["file"]))
+            if "bumps" in pr:
+                violations.append(dict(prop=pid, replay=p, what="allocation frontier of %s keeps growing over fill/empty cycles: %s"
+                                                                % (pr["file"], pr["bumps"])))
+            else:
+                violations.append(dict(prop=pid, replay=p, what="page accounting of %s between two commits is not an Alloc!Step "
+                                                                "(leak, reuse of a live page, or incomplete partition)" % pr["file"]))
     # 7. report
     for k in sorted(set(json.dumps(x, sort_keys=True) for x in known)):
         k = json.loads(k)
